@@ -125,7 +125,7 @@ def jobs(prop, tier):
                 for (case, cn) in ((0, 'won'), (1, 'lost'), (2, 'silent')):
                     J.append(Job(prop, 'act_arb_%s_nn%d' % (cn, nn), 'C02_step.cpp', defs={'NNMAX': nn, 'PROP': pn, 'MODE': mode, 'HSTATE': hstate, 'ARBCASE': case}, unwind=5, shape='S', timeout=3000 if T else 600,
                          unwindset={'vp_main': 257, 'RecListener': nn + 8, 'related': nn + 8, 'relatedActive': nn + 8, 'reqIsM': nn + 8, 'setVec': nn + 8},
-                         bounds='one handler step from every state in which the own arbitration address was written and its echo is awaited, case "%s" of {address echoed, other symbol, nothing read}, request NN <= %d' % (cn, nn), **dict(BUS, solver='kissat', mem_gb=4.5)))   # kissat wins these; one process per query keeps the tier inside the memory of the machine
+                         bounds='one handler step from every state in which the own arbitration address was written and its echo is awaited, case "%s" of {address echoed, other symbol, nothing read}, request NN <= %d' % (cn, nn), **dict(BUS, solver='kissat', mem_gb=7)))   # kissat wins these; one process per query keeps the tier inside the memory of the machine
                 continue
             J.append(Job(prop, 'act_%s_nn%d' % (nm, nn), 'C02_step.cpp', defs={'NNMAX': nn, 'PROP': pn, 'MODE': mode, 'HSTATE': hstate}, unwind=5, shape='S', timeout=3000 if T else 300,
                          unwindset={'vp_main': 257, 'RecListener': nn + 8, 'related': nn + 8, 'relatedActive': nn + 8, 'reqIsM': nn + 8, 'setVec': nn + 8},
@@ -151,7 +151,8 @@ def jobs(prop, tier):
             if not T and 'q%d_arm%d_%s' % (nq, arm, gn) + ('_gen' if gs else '') not in quick:
                 continue
             gdef = {'ENV_GENSYN': gs} if hg <= 1 else {}
-            BUS['mem_gb'] = 6 if arm == 2 else 3.5 if (gs or hg == 9) else 2   # measured peak RSS per process
+            # declared memory per query = measured peak RSS of cbmc plus the external kissat process working on its 1-3 GB CNF
+            BUS['mem_gb'] = (12 if (gs or nq == 2) else 10) if arm == 2 else 6 if (gs or hg == 9) else 3
             J.append(Job(prop, 'pas_q%d_arm%d_%s%s' % (nq, arm, gn, '_gen' if gs else ''), 'C03_passive.cpp', defs=dict({'NNMAX': nn, 'PROP': pn, 'NQ': nq, 'ARM': arm, 'HGROUP': hg}, **gdef), unwind=5, shape='S', timeout=3000 if T else 600,
                          unwindset={'vp_main': 257, 'RecListener': nn + 8, 'related': nn + 8, 'relatedActive': nn + 8, 'reqIsM': nn + 8, 'setVec': nn + 8, 'fillRequest': nn + 8},
                          bounds='one handler step from every passive handler state of group "%s" with %d request(s) waiting and the device %s, every read outcome; telegram parts NN <= %d (the data size of passive reception is C01\'s subject)' % (gn, nq, ('idle', 'armed for arbitration', 'waiting for the echo of its arbitration address')[arm], nn), **BUS))
